@@ -412,7 +412,8 @@ Definition accept_fuel st tok (ys : ysched) : nat :=
   | None => 1
   end.
 
-Definition accept st tok ys := accept_loop (accept_fuel st tok ys) st tok ys.
+(* `if self.paused { return; }` (after the fix of D6: a stale listener event behind a processed Pause) *)
+Definition accept st tok ys := if paused st then (st, ys) else accept_loop (accept_fuel st tok ys) st tok ys.
 
 (* Accept::accept_all *)
 Fixpoint accept_toks st (toks : list nat) ys : state * ysched :=
